@@ -3,22 +3,27 @@
 //! nothing behind on its worker (R). The reference is computed from the same tree, at
 //! check time, never stored.
 
-use crate::plan::{Expected, Plan, PlanTask};
+use crate::forked::{self, Death};
+use crate::plan::{encode_script, Action, Expected, Plan, PlanTask};
 use crate::rng::fnv_str;
-use crate::sched::{self, Outcome, RunRecord, SoloResult};
+use crate::sched::{self, Counters, Outcome, RunRecord, SoloResult};
+use serde::{Deserialize, Serialize};
 use std::collections::HashMap;
 use std::rc::Rc;
+use std::time::Duration;
 
-#[derive(Default)]
+/// `solo(m, o, c)` for every task asked about, each computed in its own forked process
+/// (fresh statics, fresh thread, fresh Globals, its own hash keys) and memoised.
 pub struct References {
     map: HashMap<(String, bool, String, bool), Rc<SoloResult>>,
     pub key_seed: u64,
     pub computed: u64,
+    pub timeout: Duration,
 }
 
 impl References {
-    pub fn new(key_seed: u64) -> Self {
-        References { map: HashMap::new(), key_seed, computed: 0 }
+    pub fn new(key_seed: u64, timeout: Duration) -> Self {
+        References { map: HashMap::new(), key_seed, computed: 0, timeout }
     }
     pub fn get(&mut self, t: &PlanTask) -> Rc<SoloResult> {
         let k = (t.src.clone(), t.ts, t.options.clone(), t.comments);
@@ -26,7 +31,12 @@ impl References {
             return r.clone();
         }
         self.computed += 1;
-        let r = Rc::new(sched::solo(t, self.key_seed ^ fnv_str(&t.key())));
+        let key = self.key_seed ^ fnv_str(&t.key());
+        let r: SoloResult = match forked::call_json(&Request::Solo { task: t.clone(), key_seed: key }, self.timeout) {
+            Ok(r) => r,
+            Err(d) => SoloResult { outcome: Outcome::Died(d.to_string()), steps: 0, sites: vec![], residue: false },
+        };
+        let r = Rc::new(r);
         self.map.insert(k, r.clone());
         r
     }
@@ -35,10 +45,10 @@ impl References {
     }
 }
 
-#[derive(Clone, Debug)]
+#[derive(Clone, Debug, Serialize, Deserialize)]
 pub struct Violation {
     /// "D" determinism/isolation, "T" totality, "R" residue after a crash
-    pub clause: &'static str,
+    pub clause: String,
     pub task_idx: usize,
     pub task_key: String,
     pub component: String,
@@ -58,12 +68,15 @@ impl Violation {
     pub fn same_as(&self, other: &Violation) -> bool {
         self.class() == other.class() && self.task_key == other.task_key && self.component == other.component
     }
+    pub fn is_death(&self) -> bool {
+        self.task_key == WHOLE_RUN
+    }
     pub fn expected(&self) -> Expected {
         Expected { clause: self.clause.to_string(), task: self.task_key.clone(), component: self.component.clone(), fingerprint: self.fingerprint.clone() }
     }
     pub fn matches_expected(&self, e: &Expected) -> bool {
         let class = if e.clause == "T" { "T" } else { "D" };
-        self.class() == class && self.task_key == e.task && self.component == e.component && self.fingerprint == e.fingerprint
+        self.class() == class && self.task_key == e.task && self.component == e.component && (self.is_death() || self.fingerprint == e.fingerprint)
     }
 }
 
@@ -84,6 +97,7 @@ fn first_diff_lines(a: &str, b: &str) -> Vec<String> {
     vec![]
 }
 
+#[derive(Clone, Debug, Serialize, Deserialize, Default)]
 pub struct Checked {
     pub violations: Vec<Violation>,
     pub parse_failures: Vec<String>,
@@ -96,13 +110,13 @@ pub fn check_solo(idx: usize, t: &PlanTask, solo: &SoloResult) -> Option<Violati
     match &solo.outcome {
         Outcome::Returned(_) | Outcome::ParseFail(_) => {
             if solo.residue {
-                Some(Violation { clause: "R", task_idx: idx, task_key: t.key(), component: "residue".into(), fingerprint: "solo".into(), detail: vec!["GLOBALS or HANDLER still set after the task ended (solo)".into()] })
+                Some(Violation { clause: "R".into(), task_idx: idx, task_key: t.key(), component: "residue".into(), fingerprint: "solo".into(), detail: vec!["GLOBALS or HANDLER still set after the task ended (solo)".into()] })
             } else {
                 None
             }
         }
         Outcome::Panicked(m) => Some(Violation {
-            clause: "T",
+            clause: "T".into(),
             task_idx: idx,
             task_key: t.key(),
             component: format!("panic: {m}"),
@@ -110,19 +124,27 @@ pub fn check_solo(idx: usize, t: &PlanTask, solo: &SoloResult) -> Option<Violati
             detail: vec![format!("the transform panicked on this module alone: {m}")],
         }),
         Outcome::Budget(n) => Some(Violation {
-            clause: "T",
+            clause: "T".into(),
             task_idx: idx,
             task_key: t.key(),
             component: "budget".into(),
             fingerprint: "solo".into(),
             detail: vec![format!("the transform did not finish within {n} simulator steps on this module alone (runaway recursion or loop)")],
         }),
+        Outcome::Died(m) => Some(Violation {
+            clause: "T".into(),
+            task_idx: idx,
+            task_key: t.key(),
+            component: "process-death".into(),
+            fingerprint: "solo".into(),
+            detail: vec![format!("the transform did not survive this module alone: {m}")],
+        }),
         Outcome::Crashed => unreachable!("solo injects no faults"),
     }
 }
 
 pub fn check(plan: &Plan, rec: &RunRecord, refs: &mut References) -> Checked {
-    let mut out = Checked { violations: vec![], parse_failures: vec![], tasks_compared: 0, tasks_faulted: 0 };
+    let mut out = Checked::default();
     // T on the workload itself
     for (i, t) in plan.tasks.iter().enumerate() {
         let solo = refs.get(t);
@@ -141,7 +163,7 @@ pub fn check(plan: &Plan, rec: &RunRecord, refs: &mut References) -> Checked {
         let solo = refs.get(t);
         if r.residue {
             out.violations.push(Violation {
-                clause: "R",
+                clause: "R".into(),
                 task_idx: i,
                 task_key: t.key(),
                 component: "residue".into(),
@@ -155,7 +177,7 @@ pub fn check(plan: &Plan, rec: &RunRecord, refs: &mut References) -> Checked {
         }
         let Outcome::Returned(want) = &solo.outcome else { continue };
         out.tasks_compared += 1;
-        let clause_d: &'static str = if r.after_crash_on_same_thread { "R" } else { "D" };
+        let clause_d = if r.after_crash_on_same_thread { "R" } else { "D" };
         match &r.outcome {
             Outcome::Returned(got) => {
                 let (comp, a, b) = if got.code != want.code {
@@ -169,10 +191,10 @@ pub fn check(plan: &Plan, rec: &RunRecord, refs: &mut References) -> Checked {
                 };
                 let mut detail = vec![format!("task #{i} {} on worker {} (generation {}, epoch {}) differs from its solo result in `{comp}`", t.key(), r.worker, r.generation, r.epoch)];
                 detail.extend(first_diff_lines(&a, &b));
-                out.violations.push(Violation { clause: clause_d, task_idx: i, task_key: t.key(), component: comp.into(), fingerprint: fp(&b), detail });
+                out.violations.push(Violation { clause: clause_d.into(), task_idx: i, task_key: t.key(), component: comp.into(), fingerprint: fp(&b), detail });
             }
             Outcome::Panicked(m) => out.violations.push(Violation {
-                clause: "T",
+                clause: "T".into(),
                 task_idx: i,
                 task_key: t.key(),
                 component: format!("panic: {m}"),
@@ -180,7 +202,7 @@ pub fn check(plan: &Plan, rec: &RunRecord, refs: &mut References) -> Checked {
                 detail: vec![format!("task #{i} {} panicked in the simulated run (it returns when run alone): {m}", t.key())],
             }),
             Outcome::Budget(n) => out.violations.push(Violation {
-                clause: "T",
+                clause: "T".into(),
                 task_idx: i,
                 task_key: t.key(),
                 component: "budget".into(),
@@ -189,7 +211,88 @@ pub fn check(plan: &Plan, rec: &RunRecord, refs: &mut References) -> Checked {
             }),
             Outcome::Crashed => unreachable!("Crashed implies fault_fired"),
             Outcome::ParseFail(m) => out.parse_failures.push(format!("{}: {}", t.key(), m)),
+            Outcome::Died(_) => unreachable!("only solo references die"),
         }
     }
     out
+}
+
+/// What comes back from the fork that executed and checked one run.
+#[derive(Clone, Debug, Serialize, Deserialize)]
+pub struct Summary {
+    pub counters: Counters,
+    pub log_hash: u64,
+    pub interleaving: u64,
+    pub trace: Vec<Action>,
+    pub checked: Checked,
+}
+
+pub const WHOLE_RUN: &str = "*";
+
+pub fn death_violation(d: &Death) -> Violation {
+    Violation {
+        clause: "T".into(),
+        task_idx: 0,
+        task_key: WHOLE_RUN.into(),
+        component: "process-death".into(),
+        fingerprint: match d {
+            Death::Signal(s) => format!("signal {s}"),
+            Death::Timeout(_) => "timeout".into(),
+            Death::Exit(c) => format!("exit {c}"),
+            Death::Io(_) => "io".into(),
+        },
+        detail: vec![format!("the simulated host process did not survive this run: {d}")],
+    }
+}
+
+/// Executes (plan, script) in a fork of this (pristine) process and checks it there against
+/// the references, which must already be memoised (call `refs.budgets(plan)` first).
+pub fn run_forked(plan: &Plan, script: Option<&[Action]>, refs: &mut References) -> Result<Summary, Death> {
+    let budgets = refs.budgets(plan);
+    let solos: Vec<SoloResult> = plan
+        .tasks
+        .iter()
+        .map(|t| {
+            let r = refs.get(t);
+            SoloResult { outcome: r.outcome.clone(), steps: r.steps, sites: vec![], residue: r.residue }
+        })
+        .collect();
+    forked::call_json(&Request::Run { plan: plan.clone(), script: script.map(|s| s.to_vec()), solos, budgets }, refs.timeout)
+}
+
+/// What the fork server's grandchildren are asked to do.
+#[derive(Serialize, Deserialize)]
+pub enum Request {
+    Solo { task: PlanTask, key_seed: u64 },
+    Run { plan: Plan, script: Option<Vec<Action>>, solos: Vec<SoloResult>, budgets: Vec<u32> },
+}
+
+/// Runs in the forked grandchild: the only place where the code under test executes.
+pub fn handle_request(bytes: &[u8]) -> Vec<u8> {
+    let req: Request = serde_json::from_slice(bytes).expect("request");
+    match req {
+        Request::Solo { task, key_seed } => serde_json::to_vec(&sched::solo_here(&task, key_seed)).unwrap(),
+        Request::Run { plan, script, solos, budgets } => {
+            let mut refs = References::new(0, Duration::from_secs(1));
+            for (t, s) in plan.tasks.iter().zip(solos) {
+                refs.map.insert((t.src.clone(), t.ts, t.options.clone(), t.comments), Rc::new(s));
+            }
+            let rec: RunRecord = sched::execute(&plan, script.as_deref(), &budgets);
+            let checked = check(&plan, &rec, &mut refs);
+            serde_json::to_vec(&Summary { counters: rec.counters, log_hash: rec.log_hash, interleaving: rec.interleaving, trace: rec.trace, checked }).unwrap()
+        }
+    }
+}
+
+/// All violations of one run, a process death counting as one.
+pub fn violations_of(r: &Result<Summary, Death>) -> Vec<Violation> {
+    match r {
+        Ok(s) => s.checked.violations.clone(),
+        Err(d) => vec![death_violation(d)],
+    }
+}
+
+#[allow(dead_code)]
+pub fn encode(trace: &[Action]) -> Vec<String> {
+    encode_script(trace)
 }
